@@ -107,11 +107,20 @@ fn run_bool(sc: &Value) {
     let fams = sc.get("bools").cloned().unwrap_or(json!([]));
     let n = fams.as_array().map(|x| x.len()).unwrap_or(0).min(fam::NBOOL);
     for k in 0..n {
-        for v in [true, false] {
+        for (v, form) in [(true, "typed"), (false, "typed"), (true, "unchecked")] {
             let before = entry(fam::bg_addr(k));
             let os0 = os_calls();
             let mut inj = in_lib(InjectorPP::new);
-            let r = catch_unwind(AssertUnwindSafe(|| in_lib(|| inj.when_called(fam::bg_target(k)).will_return_boolean(v))));
+            let r = catch_unwind(AssertUnwindSafe(|| {
+                in_lib(|| {
+                    if form == "typed" {
+                        inj.when_called(fam::bg_target(k)).will_return_boolean(v)
+                    } else {
+                        // a pointer from the unchecked macros carries no signature at all
+                        unsafe { inj.when_called_unchecked(fam::bg_target_unchecked(k)).will_return_boolean(v) }
+                    }
+                })
+            }));
             let (verdict, cls, msg) = outcome(&r);
             let touched = os_calls() != os0 || entry(fam::bg_addr(k)) != before;
             let is_bool = fams[k].get("is_bool").and_then(|x| x.as_bool()).unwrap_or(false);
@@ -121,7 +130,7 @@ fn run_bool(sc: &Value) {
             }
             in_lib(|| drop(inj));
             let restored = entry(fam::bg_addr(k)) == before;
-            emit(json!({"ev":"BoolGate","k":k,"v":v,"fam":fams[k],"verdict":verdict,"cls":cls,"msg":msg,"touched":touched,
+            emit(json!({"ev":"BoolGate","k":k,"v":v,"form":form,"fam":fams[k],"verdict":verdict,"cls":cls,"msg":msg,"touched":touched,
                 "works":works,"restored":restored}));
         }
     }
